@@ -16,6 +16,7 @@ RULE = (
     "with emphasis on 0,1,2 and the 2047-octet limit, flag/escape-dense or uniform payload, unique 6-octet id in the info field), "
     "separated and terminated by 1..3 flags (30%: a fill run of 1..1000 flags with lengths around powers of two and multiples of 33); 30% of the frames sit on boundary values (HCS/FCS 0000, FFFF, ending in 7D, containing 7E, running FCS register 0000 mid-frame, near-maximum flag/escape-dense); every 20th stream holds 60..700 frames (up to ~90 KB, also fed as one tiny call followed by one huge call); splittings include cuts near 2047/2048/8191/8192 multiples and right after every n-th flag; stuffed on the wire for stuffing readers; for non-stuffing readers frames are redrawn until "
     "they are inside the property's domain (no flag in header octets; with abort detection no 7D directly before a flag or the frame end). "
+    "fill sweep: every fill-run length within +-8 of a multiple of 2047 / 2048 / 4096 / 8191 / 8192 / 1000 / 65536 (up to 20 600 flags quick, 140 000 thorough) between frames; one read() call of more than 4 MiB (36 MiB thorough) of back-to-back frames. "
     "Each stream runs under several splittings. evaluations = executions; distinct non-trivial = distinct (configuration, stream) digests "
     "(every stream contains >= 1 frame); a small shard runs ALL 2^(L-1) splittings of short streams; twin executions feed two reader objects alternately with adversarial call boundaries (calls ending right after an escape octet / starting with a flag)."
 )
@@ -30,7 +31,71 @@ N_STREAMS = {"quick": 260, "thorough": 19000}
 def plan(tier: str, seed: int) -> list[dict]:
     shards = [{"kind": "gen", "n": N_STREAMS[tier]} for _ in range(15)]
     shards.append({"kind": "allsplits", "n": 6 if tier == "quick" else 40})
+    # inter-frame fill of every length in the neighbourhood of the multiples of the protocol's constants (frame limit, buffer sizes)
+    n_fill = 8 if tier == "quick" else 16
+    for k in range(n_fill):
+        shards.append({"kind": "fill_sweep", "rem": k, "mod": n_fill, "limit": 20600 if tier == "quick" else 140000})
+    # one read() call that carries more than 4 MiB / 32 MiB (a capture replayed in one go)
+    shards.append({"kind": "huge_call", "octets": (5 << 20) if tier == "quick" else (36 << 20)})
     return shards
+
+
+def fill_lengths(limit: int) -> list[int]:
+    out = set()
+    for c in (2047, 2048, 4096, 8191, 8192, 1000, 65536):
+        k = 1
+        while c * k - 8 <= limit:
+            out.update(n for n in range(c * k - 8, c * k + 9) if 0 < n <= limit)
+            k += 1
+    return sorted(out)
+
+
+def run_fill_sweep(shard: dict, ctx) -> None:
+    rng = ctx.rng("c02", "fill", shard["rem"])
+    lengths = [n for i, n in enumerate(fill_lengths(shard["limit"])) if i % shard["mod"] == shard["rem"]]
+    for n in lengths:
+        cfg = hdlc_gen.CONFIGS[rng.randrange(4)]
+        ids = hdlc_gen.IdSource(rng)
+        sent = []
+        out = bytearray(b"\x7e")
+        for j in range(3):
+            while True:
+                fr, d = hdlc_gen.good_frame(rng, ids, max_info=40, want_info=True)
+                if cfg[0] or hdlc_gen.in_plain_domain(fr, cfg[1]):
+                    break
+            sent.append((fr, d))
+            out += hdlc_gen.on_wire(fr, cfg[0])
+            out += b"\x7e" * (n if j == 0 else 1)
+        stream = bytes(out)
+        for spec in (("none",), splits.random_spec(rng, len(stream), False)):
+            compare(cfg, stream, spec, sent, ctx)
+        ctx.case(b"fill" + n.to_bytes(4, "big") + bytes(cfg), True, 2)
+        ctx.count("fill_run_lengths_swept")
+        ctx.maximum("longest_fill_run", n)
+
+
+def run_huge_call(shard: dict, ctx) -> None:
+    rng = ctx.rng("c02", "huge")
+    cfg = hdlc_gen.CONFIGS[rng.randrange(4)]
+    ids = hdlc_gen.IdSource(rng)
+    out = bytearray(b"\x7e")
+    sent = []
+    pool = []
+    for _ in range(40):  # forty distinct frames, most of them large, repeated with fresh sequence ids in the control field
+        while True:
+            fr, d = hdlc_gen.good_frame(rng, ids, max_info=rng.choice((None, None, 300)), want_info=True)
+            if cfg[0] or hdlc_gen.in_plain_domain(fr, cfg[1]):
+                break
+        pool.append((fr, d, hdlc_gen.on_wire(fr, cfg[0])))
+    while len(out) < shard["octets"]:
+        fr, d, wire = pool[rng.randrange(len(pool))]
+        sent.append((fr, d))
+        out += wire + b"\x7e" * rng.choice((1, 1, 2))
+    stream = bytes(out)
+    compare(cfg, stream, ("none",), sent, ctx)
+    ctx.case(b"huge" + bytes(cfg) + len(stream).to_bytes(5, "big"), True)
+    ctx.count("single_read_calls_of_more_than_4_MiB")
+    ctx.maximum("largest_single_read_call_octets", len(stream))
 
 
 def make_stream(rng, cfg, ctx=None, max_frames: int = 8, small: bool = False):
@@ -178,6 +243,10 @@ def header_only(cfg, stream, spec, sent, ctx) -> None:
 
 
 def run(shard: dict, ctx) -> None:
+    if shard["kind"] == "fill_sweep":
+        return run_fill_sweep(shard, ctx)
+    if shard["kind"] == "huge_call":
+        return run_huge_call(shard, ctx)
     rng = ctx.rng("c02", shard["kind"])
     if shard["kind"] == "allsplits":
         for i in range(shard["n"]):
@@ -253,7 +322,7 @@ def finalize(agg: dict, tier: str):
     c = agg["counters"]
     reasons = []
     for k in ("streams_cfg00", "streams_cfg01", "streams_cfg10", "streams_cfg11", "frames_at_2045_2047_octets", "header_only_frames",
-              "addr_len_dst4", "addr_len_src4", "splittings_enumerated"):
+              "addr_len_dst4", "addr_len_src4", "splittings_enumerated", "fill_run_lengths_swept", "single_read_calls_of_more_than_4_MiB"):
         if c.get(k, 0) == 0:
             reasons.append(f"workload never produced '{k}'")
     return {}, reasons
